@@ -19,9 +19,16 @@ def cases(rnd, n):
     for f in fixed:
         out.append((f, None))
         out.append((f, {':--c': f}))
+    import respell
+    ag = gen_selectors.AGen(rnd, names=['div', 'p', 'x-y', 'li'], classes=['x', 'a-b'], ids=['a', 'i d'], attrs=['title', 'data-x', 'type'],
+                            values=['x', 'a b', "it's", ''], texts=['hello', 'a"b'], feats=('core', 'contains', 'lang'))
     for _ in range(n):
         k = rnd.random()
-        if k < 0.2:
+        if k < 0.08:
+            # a VALID selector in an unusual spelling (escapes in every identifier incl. pseudo-class names, comments, case)
+            _, ast = ag.selector(2)
+            s = respell.spell(ast, respell.Sp(rnd, rnd.choice([0.3, 0.6, 0.9])))
+        elif k < 0.2:
             s = sg.selector(2)
         elif k < 0.65:
             s = gen_strings.mutate(rnd, sg.selector(1))
